@@ -782,12 +782,36 @@ func (c *Ctx) checkGlobalTableReads() {
 					if id, ok := ast.Unparen(un.X).(*ast.Ident); !ok || info.ObjectOf(id) != okObj {
 						continue
 					}
-					ast.Inspect(ifs.Body, func(m ast.Node) bool {
-						if call, ok := m.(*ast.CallExpr); ok && Callee(info, call) == getUnwrap && getUnwrap != nil {
-							fallback = true
+					// the fallback must be taken whenever the table has no entry: no way out of the
+					// `if !ok` body ahead of it, and not under a further condition
+					for _, bst := range ifs.Body.List {
+						has := false
+						ast.Inspect(bst, func(m ast.Node) bool {
+							if call, ok := m.(*ast.CallExpr); ok && Callee(info, call) == getUnwrap && getUnwrap != nil {
+								has = true
+							}
+							return true
+						})
+						if has {
+							if _, cond := bst.(*ast.IfStmt); !cond {
+								fallback = true
+							} else if ii := bst.(*ast.IfStmt); ii.Init != nil {
+								fallback = true // if x, err := GetUnwrapField(…); err != nil { … }
+							}
+							break
 						}
-						return true
-					})
+						leaves := false
+						ast.Inspect(bst, func(m ast.Node) bool {
+							switch m.(type) {
+							case *ast.BranchStmt, *ast.ReturnStmt:
+								leaves = true
+							}
+							return true
+						})
+						if leaves {
+							break
+						}
+					}
 				}
 			}
 			r.CheckD(fallback, "R15f", key, c.P.Pos(ix.Pos()),
